@@ -39,6 +39,7 @@ service Main {
   rpc NestedT (Req.Inner) returns (stream Req.Inner);
   rpc EmptyIn (google.protobuf.Empty) returns (google.protobuf.StringValue);
   rpc WrapStream (stream google.protobuf.Int32Value) returns (stream google.protobuf.Empty);
+  rpc GetHTTPCode (Req) returns (Resp);
 }
 service Second { rpc DoThing (Req) returns (Resp); rpc Only (Req) returns (Resp); }
 '''
@@ -57,18 +58,26 @@ METHODS = {
     "NestedT": ("nested_t", False, True, "Inner", "Inner"),
     "EmptyIn": ("empty_in", False, False, "Empty", "StringValue"),
     "WrapStream": ("wrap_stream", True, True, "Int32Value", "Empty"),
+    "GetHTTPCode": ("get_http_code", False, False, "Req", "Resp"),
 }
+ROOT = '''syntax = "proto3";
+message RootReq { int32 a = 1; }
+message RootResp { int32 b = 1; }
+service RootSvc { rpc Ping (RootReq) returns (RootResp); rpc Pings (RootReq) returns (stream RootResp); }
+'''
 _G: Dict[str, Any] = {}
 
 
 def gen():
     if "res" not in _G:
-        res = plugin.compile_protos({"main.proto": MAIN, "other.proto": OTHER}, tag="c11", want_descriptor=False)
+        res = plugin.compile_protos({"main.proto": MAIN, "other.proto": OTHER, "root.proto": ROOT}, tag="c11",
+                                    want_descriptor=False)
         if res.rc != 0:
             raise HarnessError("plugin failed on the C11 service schema: " + res.stderr[-300:])
         _G["res"] = res
         _G["main"] = res.module("svc.main")
         _G["other"] = res.module("svc.other")
+        _G["root"] = res.module("")
     return _G["main"], _G["other"]
 
 
@@ -101,7 +110,7 @@ def req_alphabet(T, key: str) -> List[Any]:
 
 def respond(T, method: str, reqs: List[Any], n_out: int) -> List[Any]:
     """Deterministic response(s) as a function of the request(s)."""
-    if method in ("DoThing", "list_things", "SENDAll", "Get2Fa"):
+    if method in ("DoThing", "list_things", "SENDAll", "Get2Fa", "GetHTTPCode"):
         base = sum(r.q for r in reqs) % (2**31)
         s = "|".join(r.s for r in reqs)
         return [T["Resp"](r=(base + i) % (2**31 - 1), s=f"{method}:{s}:{i}") for i in range(n_out)]
@@ -137,6 +146,15 @@ def make_service(main, T, outcome: str, n_out: int, record: List[Tuple[str, List
                     if outcome.startswith("err"):
                         raise err()
                     return respond(T, m, reqs, 1)[0]
+            elif outcome == "returns-without-yield" and not cstream:
+                def handler(self, arg):
+                    # a server-streaming method that "just returns": calling it gives a coroutine,
+                    # which the server base must treat as an empty response stream
+                    record.append((m, [arg]))
+
+                    async def nothing():
+                        return None
+                    return nothing()
             else:
                 async def handler(self, arg):
                     reqs = [x async for x in arg] if cstream else [arg]
@@ -162,11 +180,16 @@ def make_service(main, T, outcome: str, n_out: int, record: List[Tuple[str, List
 async def call(stub, py: str, cstream: bool, sstream: bool, reqs: List[Any], as_async: bool, **kw):
     fn = getattr(stub, py)
     if cstream:
-        if as_async:
+        if as_async == "channel":
+            from betterproto.grpc.util.async_channel import AsyncChannel
+            ch = AsyncChannel()
+            await ch.send_from(list(reqs), close=True)
+            arg: Any = ch
+        elif as_async:
             async def agen():
                 for r in reqs:
                     yield r
-            arg: Any = agen()
+            arg = agen()
         else:
             arg = list(reqs)
     else:
@@ -257,6 +280,8 @@ async def one_case(case: Dict[str, Any]) -> List[Tuple[str, str]]:
         out.append(("unexpected-status", f"{m}: caller got {raised!r}"[:200]))
         return out
     want = respond(T, m, want_reqs, n_out if sstream else 1)
+    if outcome == "returns-without-yield":
+        want = []
     if got != want or [type(x) for x in got] != [type(x) for x in want]:
         out.append(("response-differs", f"{m}: caller received {got!r}, handler returned {want!r}"[:400]))
     return out
@@ -322,6 +347,40 @@ async def precedence_case(case: Dict[str, Any]) -> List[Tuple[str, str]]:
     return out
 
 
+async def root_case(case: Dict[str, Any]) -> List[Tuple[str, str]]:
+    """A service in the ROOT package (no proto package): route is /RootSvc/<Method>."""
+    gen()
+    root = _G["root"]
+    record: List[Any] = []
+
+    class Svc(root.RootSvcBase):
+        async def ping(self, req):
+            record.append(("Ping", req))
+            return root.RootResp(b=req.a + 1)
+
+        async def pings(self, req):
+            record.append(("Pings", req))
+            yield root.RootResp(b=req.a)
+            yield root.RootResp(b=req.a + 1)
+
+    out: List[Tuple[str, str]] = []
+    try:
+        async with ChannelFor([Svc()]) as channel:
+            stub = root.RootSvcStub(channel)
+            req = root.RootReq(a=case["a"])
+            if case["method"] == "Ping":
+                got = [await asyncio.wait_for(stub.ping(req), 4)]
+                want = [root.RootResp(b=case["a"] + 1)]
+            else:
+                got = [x async for x in stub.pings(req)]
+                want = [root.RootResp(b=case["a"]), root.RootResp(b=case["a"] + 1)]
+    except Exception as e:
+        return [("root-package-call", f"{type(e).__name__}: {e}"[:200])]
+    if got != want or record != [(case["method"], req)]:
+        out.append(("root-package-call", f"got {got!r} want {want!r}; handler record {record!r}"[:300]))
+    return out
+
+
 def cases(tier: str) -> List[Dict[str, Any]]:
     out: List[Dict[str, Any]] = []
     maxlen = 2 if tier == "quick" else 3
@@ -335,13 +394,19 @@ def cases(tier: str) -> List[Dict[str, Any]]:
                 idx_sets = [(i,) for i in range(nalpha)]
             for idx in idx_sets:
                 for nout in out_lens:
-                    for as_async in ((False, True) if cstream else (False,)):
+                    for as_async in ((False, True, "channel") if cstream else (False,)):
                         out.append({"kind": "call", "method": m, "req_idx": list(idx), "n_out": nout,
                                     "outcome": "normal", "as_async": as_async})
         for outcome in ("err-not-found", "err-invalid", "err-internal", "not-overridden"):
             for nout in (0, 2) if sstream else (1,):
                 out.append({"kind": "call", "method": m, "req_idx": [1] if not cstream else [0, 1], "n_out": nout,
                             "outcome": outcome, "as_async": False})
+        if sstream and not cstream:
+            out.append({"kind": "call", "method": m, "req_idx": [1], "n_out": 0, "outcome": "returns-without-yield",
+                        "as_async": False})
+    for rm in ("Ping", "Pings"):
+        for a in (0, 7):
+            out.append({"kind": "root", "method": rm, "a": a})
     for m in ("DoThing", "list_things", "SENDAll", "Get2Fa"):
         for cfg in itertools.product((0, 1), repeat=6):
             out.append({"kind": "precedence", "method": m, "cfg": list(cfg)})
@@ -349,6 +414,8 @@ def cases(tier: str) -> List[Dict[str, Any]]:
 
 
 def sig(case: Dict[str, Any], oracle: str) -> List[str]:
+    if case["kind"] == "root":
+        return ["grpc", oracle, "root-package", case["method"]]
     _, cstream, sstream, rk, _ = METHODS[case["method"]]
     card = ("stream" if cstream else "unary") + "-" + ("stream" if sstream else "unary")
     return ["grpc", oracle, card, case.get("outcome", "precedence")]
@@ -364,10 +431,10 @@ def _shard(shard: int, nshards: int, tier: str) -> Tally:
         for i in range(shard, len(cs), nshards):
             case = cs[i]
             t.inc("calls")
-            t.mark("distinct", (case["method"], tuple(case.get("req_idx", ())), case.get("n_out"), case.get("outcome"),
-                                case.get("as_async"), tuple(case.get("cfg", ()))))
+            t.mark("distinct", (case["kind"], case["method"], tuple(case.get("req_idx", ())), case.get("n_out"),
+                                case.get("outcome"), str(case.get("as_async")), tuple(case.get("cfg", ())), case.get("a")))
             try:
-                fn = precedence_case if case["kind"] == "precedence" else one_case
+                fn = {"precedence": precedence_case, "root": root_case}.get(case["kind"], one_case)
                 fails = loop.run_until_complete(fn(case))
             except Exception as e:
                 fails = [("harness-raised", f"{type(e).__name__}: {e}"[:300])]
@@ -412,7 +479,7 @@ def replay(case: dict) -> List[Violation]:
     gen()
     loop = asyncio.new_event_loop()
     try:
-        fn = precedence_case if case["kind"] == "precedence" else one_case
+        fn = {"precedence": precedence_case, "root": root_case}.get(case["kind"], one_case)
         fails = loop.run_until_complete(fn(case))
     finally:
         loop.close()
